@@ -466,6 +466,39 @@ pub fn run(tier: Tier) -> i32 {
         st.transitions += 1;
         check_document_text(&serde_json::to_string(&d).unwrap(), &d, &mut st);
     }
+    // nesting ladder: "arbitrary nesting" -- the smallest depth at which a valid document is rejected is part of
+    // the violation key, so that a lower limit than the recorded one is a new violation
+    for (kind, open, close, leaf) in [("array", "[", "]", "1"), ("object", "{\"a\":", "}", "1"), ("mixed", "[{\"a\":", "}]", "null")] {
+        let mut first_rejected: Option<(usize, String)> = None;
+        for depth in [1usize, 8, 32, 63, 64, 65, 100, 120, 126, 127, 128, 129, 130, 200, 500, 1000] {
+            let n = if kind == "mixed" { depth / 2 } else { depth };
+            let text = format!("{}{}{}", open.repeat(n), leaf, close.repeat(n));
+            st.states += 1;
+            st.transitions += 1;
+            st.evaluations += 1;
+            st.validated += 1;
+            match guarded(|| Variable::from_json(&text).map(|v| v.to_string())) {
+                Ok(Ok(printed)) => {
+                    // compact printing of these documents is the text itself
+                    if printed != text {
+                        st.violate(viol("C08/document", "nesting-ladder", &crate::engine::trunc(&text, 80), text.clone(), printed));
+                    } else {
+                        st.nontrivial += 1;
+                        st.outcome("nested document preserved");
+                    }
+                }
+                Ok(Err(e)) => {
+                    if first_rejected.is_none() {
+                        first_rejected = Some((depth, e));
+                    }
+                }
+                Err(m) => st.violate(viol("C08/panic", "nesting-ladder", &crate::engine::trunc(&text, 80), "a value".into(), m)),
+            }
+        }
+        if let Some((d, why)) = first_rejected {
+            st.violate(viol(&format!("C08/nesting-depth-limit/{}/rejected-from-{}", kind, d), "nesting-ladder", &format!("{} nested {} levels", kind, d), "parses (valid JSON at any nesting depth)".into(), why));
+        }
+    }
     let ladder = size_ladder(tier);
     st.count("size_ladder_documents", ladder.len() as u64);
     let sl = par_sweep(ladder.chunks(8).map(|c| c.to_vec()).collect(), |chunk: &Vec<(String, Value)>, st| {
@@ -499,6 +532,22 @@ pub fn replay(case: &Value) -> Option<(String, bool)> {
     let mut st = Stats::default();
     match case["sub"].as_str()? {
         "numerals" => check_numeral(t, &mut st),
+        "nesting-ladder" => {
+            // "<kind> nested <d> levels"
+            let mut it = t.split(' ');
+            let kind = it.next()?;
+            let d: usize = it.nth(1)?.parse().ok()?;
+            let (open, close, leaf, n) = match kind {
+                "array" => ("[", "]", "1", d),
+                "object" => ("{\"a\":", "}", "1", d),
+                _ => ("[{\"a\":", "}]", "null", d / 2),
+            };
+            let text = format!("{}{}{}", open.repeat(n), leaf, close.repeat(n));
+            return Some(match guarded(|| Variable::from_json(&text).map(|v| v.to_string())) {
+                Ok(Ok(p)) if p == text => ("parses and prints back".into(), false),
+                other => (format!("{:?}", other.map(|r| r.map(|_| "a different text".to_string()))), true),
+            });
+        }
         _ => {
             if let Ok(w) = serde_json::from_str::<Value>(t) {
                 check_document_text(t, &w, &mut st)
